@@ -17,7 +17,7 @@ PROP = dict(
         props=["Hostd.Props.C02", "Hostd.Props.C02Rpc"],
         extra=dict(mode="data"),
         corpus_filter=r"^c02_",
-        flag_filter=r"^(read_intact|prune_only_unreferenced|shrink_keeps_occupied|lost_counted|data/)",
+        flag_filter=r"^(read_intact|sync_durable|prune_only_unreferenced|shrink_keeps_occupied|lost_counted|data/)",
         quick=dict(n=256, len=45, shards=8, timeout=300),
         thorough=dict(n=3200, len=60, shards=16, timeout=1700),
         nontrivial=r"^read .*res=ok", min_ops=8, min_kinds=4,
